@@ -805,12 +805,12 @@ PPL::Grid::is_universe() const {
       return false;
     }
   }
-#ifndef NDEBUG
+  // All the congruences have a null homogeneous part: the grid is the
+  // universe if they all are tautologies (i.e., are satisfied by the
+  // origin) and it is empty otherwise.
   Linear_Expression expr;
   expr.set_space_dimension(space_dim);
-  PPL_ASSERT(con_sys.satisfies_all_congruences(grid_point(expr)));
-#endif
-  return true;
+  return con_sys.satisfies_all_congruences(grid_point(expr));
 }
 
 bool
